@@ -274,3 +274,36 @@ pub fn nice_neighbourhoods(quick: bool) -> Vec<[f64; 2]> {
     }
     v
 }
+
+/// Operands for "the same object on both sides" (`&x op &x`): a grid over the given exponent range,
+/// the one-call chain states and a generic stream.
+pub fn self_alphabet(quick: bool, emin: i32, emax: i32, stream: u64) -> Vec<[f64; 2]> {
+    let exps: Vec<i32> = if quick { (emin..=emax).step_by(((emax - emin) / 24).max(1) as usize).chain([emin, -1, 0, 1, emax]).collect() } else { (emin..=emax).collect() };
+    let mut v = grid(&exps, quick, stream);
+    v.extend(crate::organic::states(1));
+    v.extend(generic_stream(if quick { 100_000 } else { 10_000_000 }, stream + 7, emin, emax));
+    v.push([0.0, 0.0]);
+    v.push([-0.0, 0.0]);
+    dedup(&mut v);
+    v
+}
+
+/// Both sides of the end point ±E of a stated range: E itself, its double-double neighbourhood
+/// (0..16 ulps and a geometric tail), and its f64 neighbours with a few low words.
+pub fn edge_points(es: &[f64], quick: bool) -> Vec<[f64; 2]> {
+    let js: Vec<i64> = if quick { (0..=16).chain([64, 1024, 1 << 20, 1 << 40, 1 << 50]).collect() } else { ulp_offsets().into_iter().chain([1 << 50, 1 << 52]).collect() };
+    let mut v = vec![];
+    for &e in es {
+        for s in [1.0, -1.0] {
+            let x = s * e;
+            v.extend(neighbourhood([x, 0.0], &js));
+            for k in 1..=3u64 {
+                for h in [f64::from_bits(x.to_bits() + k), f64::from_bits(x.to_bits() - k)] {
+                    v.extend(crate::grid::with_los(h, &[0, 1, 30], &[0, (1u64 << 52) - 1], &[]));
+                }
+            }
+        }
+    }
+    v.retain(|w| tfref::big::dd_valid_fast(w[0], w[1]));
+    v
+}
